@@ -1,3 +1,4 @@
+import LokyModel.Lemmas.ExecTerm
 import LokyModel.Props.C02
 import LokyModel.Lemmas.ExecNoBreakAll
 /-!
@@ -123,5 +124,23 @@ theorem C05_sentinel_count (ps : List Pid) (s : St) (n : Nat) (hfree : ∀ p ∈
 theorem C05_never_flagged_broken (cfg : Cfg) (hb : cfg.benign) (s : St) (h : ReachableNC cfg s) :
     s.broken = none ∧ brokenPath s.mpc = false :=
   ⟨(nbInv_reachableNC hb h).nb, (nbInv_reachableNC hb h).mp⟩
+
+
+/-- **Nothing is left behind**: when the manager thread has ended — which is what `shutdown(wait=True)`, the exit
+    hook and garbage collection wait for — every future of the executor is resolved and the table of pending
+    work items is empty; and the manager can only have got there with the shutdown flag raised, so every later
+    `submit` is refused (`C05_every_later_submit_raises`). -/
+theorem C05_nothing_left_when_manager_ends (cfg : Cfg) (s : St) (h : Reachable cfg s) (he : mEnded s = true) :
+    s.pending = [] ∧ s.shutdownFlag = true ∧ ∀ i, i < s.futs.length → (futOf s i).done = true := by
+  have ht : mTerm s.mpc = true := by
+    unfold mEnded at he; split at he <;> simp_all [mTerm]
+  have hp := termInv_reachable h ht
+  refine ⟨hp, (shutInv_reachable h).flag (mTerm_mFlagged _ ht), fun i hi => ?_⟩
+  exact (futInv_reachable h).resolved i hi (by rw [hp]; simp)
+
+/-- The manager starts `join_executor_internals` on the graceful path only once its table is empty: in the final
+    phase there is never an unprocessed work item. -/
+theorem C05_join_only_when_drained (cfg : Cfg) (s : St) (h : Reachable cfg s) (ht : mTerm s.mpc = true) :
+    s.pending = [] := termInv_reachable h ht
 
 end LokyModel.Exec
